@@ -175,8 +175,15 @@ def norm_do(do):
     if not do:
         return ["continue"]
     if isinstance(do, str):
-        return [x.strip() for x in do.split(",")]
-    return list(do)
+        names = [x.strip() for x in do.split(",")]
+    else:
+        names = list(do)
+    # one edge per (task, transition, target): a target repeated in one `do` counts once
+    out = []
+    for n in names:
+        if n not in out:
+            out.append(n)
+    return out
 
 
 def norm_publish(pub):
